@@ -317,8 +317,12 @@ package core
 //@ func (pa *path) doOnDemandPublisherCloseTimer
 //@   property C19
 //@   safety -all
-//@   assert-call onDemandPublisherStop: true
+//@   assert-call send: (called(send) <= len(old(pa.describeRequestsOnHold)) ==> ch == old(pa.describeRequestsOnHold)[called(send)-1].Res) && (called(send) > len(old(pa.describeRequestsOnHold)) ==> called(send) - len(old(pa.describeRequestsOnHold)) <= len(old(pa.readerAddRequestsOnHold)) && ch == old(pa.readerAddRequestsOnHold)[called(send) - len(old(pa.describeRequestsOnHold)) - 1].Res)
+//@   loop 1 invariant called(onDemandPublisherStop) == 0 && 0 <= _i && _i <= len(pa.describeRequestsOnHold) && called(send) == _i && pa.describeRequestsOnHold == old(pa.describeRequestsOnHold) && pa.readerAddRequestsOnHold == old(pa.readerAddRequestsOnHold)
+//@   loop 2 invariant called(onDemandPublisherStop) == 0 && 0 <= _i && _i <= len(pa.readerAddRequestsOnHold) && called(send) == len(old(pa.describeRequestsOnHold)) + _i && pa.readerAddRequestsOnHold == old(pa.readerAddRequestsOnHold)
+//@   assert-call onDemandPublisherStop: [no-request-left-held-when-the-command-is-stopped] called(send) == len(old(pa.describeRequestsOnHold)) + len(old(pa.readerAddRequestsOnHold)) && isnil(pa.describeRequestsOnHold) && isnil(pa.readerAddRequestsOnHold)
 //@   ensures [stopped-after-close-delay] called(onDemandPublisherStop) == 1 && pa.onDemandPublisherState == 0
+//@   ensures [every-held-request-answered-once] called(send) == len(old(pa.describeRequestsOnHold)) + len(old(pa.readerAddRequestsOnHold))
 
 //@ func (pa *path) run
 //@   property C19, C20
